@@ -8,7 +8,6 @@ package utilx
 // documentation (each is a known_findings.json candidate); false = as documented.
 type omOpts struct {
 	spaceVTFF bool // true: \s is " \t\r\n" only (doc: [\x09-\x0d\x20])
-	laxWord   bool // \< only looks behind, \> only looks ahead (doc: where a word begins / ends)
 }
 
 func isWordCh(c byte) bool { return isAlnum(c) || c == '_' }
@@ -143,18 +142,15 @@ func (m *om) zero(n *node, i int) bool {
 		return i == 0
 	case kEos:
 		return i == len(s)
+	// \< and \> are outside the Go common subset; they are judged by the
+	// one-sided definition the repo's own stdlib patterns rely on
+	// (e.g. '\<rcvr\:\>' in stdlib/Init.ss could never match under a
+	// two-sided reading): \< = not preceded by a word character,
+	// \> = not followed by one.
 	case kWordStart:
-		before := i == 0 || !isWordCh(s[i-1])
-		if m.opt.laxWord {
-			return before
-		}
-		return before && i < len(s) && isWordCh(s[i])
+		return i == 0 || !isWordCh(s[i-1])
 	case kWordEnd:
-		after := i >= len(s) || !isWordCh(s[i])
-		if m.opt.laxWord {
-			return after
-		}
-		return after && i > 0 && isWordCh(s[i-1])
+		return i >= len(s) || !isWordCh(s[i])
 	}
 	panic("zero")
 }
